@@ -1598,6 +1598,16 @@ int bufr_init_location( BufrDDOp *ddo, BufrDescriptor *cb )
  * @author Vanh Souvanlasy
  * @ingroup internal
  */
+static int compare_override_tableb(const void *p1, const void *p2)
+   {
+   EntryTableB *r1 = *(EntryTableB **)p1;
+   EntryTableB *r2 = *(EntryTableB **)p2;
+
+   if (r1->descriptor < r2->descriptor) return -1;
+   if (r1->descriptor > r2->descriptor) return 1;
+   return 0;
+   }
+
 int bufr_apply_op_crefval( BufrDDOp *ddo, BufrDescriptor *cb, BUFR_Template *tmplt )
    {
    char   errmsg[256];
@@ -1660,9 +1670,31 @@ int bufr_apply_op_crefval( BufrDDOp *ddo, BufrDescriptor *cb, BUFR_Template *tmp
                    */
                   arr_add( tmplt->ddo_tbe, (char *)&tb1 );
                   /* 
-                   * adding new override to table b 
+                   * adding new override to table b: bufr_tableb_fetch_entry() does a binary
+                   * search, so a redefinition of the same descriptor takes the place of the 
+                   * previous one and the array is kept sorted by descriptor
                    */
-                  arr_add( ddo->override_tableb, (char *)&tb1 ); 
+                  {
+                  int  io, no, done=0;
+                  EntryTableB **po;
+
+                  no = arr_count( ddo->override_tableb );
+                  for (io = 0; io < no ; io++)
+                     {
+                     po = (EntryTableB **)arr_get( ddo->override_tableb, io );
+                     if (po && ((*po)->descriptor == tb1->descriptor))
+                        {
+                        *po = tb1;
+                        done = 1;
+                        break;
+                        }
+                     }
+                  if (!done)
+                     {
+                     arr_add( ddo->override_tableb, (char *)&tb1 ); 
+                     arr_sort( ddo->override_tableb, compare_override_tableb );
+                     }
+                  }
                   if (debug)
                      bufr_print_debug( _("descriptor reference overrided\n") );
                   }
